@@ -440,18 +440,12 @@ func (s *S3Proxy) ListMultipartUploads(ctx context.Context, input *s3.ListMultip
 	var uploads []s3response.Upload
 	for _, u := range output.Uploads {
 		uploads = append(uploads, s3response.Upload{
-			Key:      *u.Key,
-			UploadID: *u.UploadId,
-			Initiator: s3response.Initiator{
-				ID:          *u.Initiator.ID,
-				DisplayName: *u.Initiator.DisplayName,
-			},
-			Owner: s3response.Owner{
-				ID:          *u.Owner.ID,
-				DisplayName: *u.Owner.DisplayName,
-			},
+			Key:               backend.GetStringFromPtr(u.Key),
+			UploadID:          backend.GetStringFromPtr(u.UploadId),
+			Initiator:         convertInitiator(u.Initiator),
+			Owner:             convertOwner(u.Owner),
 			StorageClass:      u.StorageClass,
-			Initiated:         *u.Initiated,
+			Initiated:         aws.ToTime(u.Initiated),
 			ChecksumAlgorithm: u.ChecksumAlgorithm,
 			ChecksumType:      u.ChecksumType,
 		})
@@ -460,21 +454,21 @@ func (s *S3Proxy) ListMultipartUploads(ctx context.Context, input *s3.ListMultip
 	var cps []s3response.CommonPrefix
 	for _, c := range output.CommonPrefixes {
 		cps = append(cps, s3response.CommonPrefix{
-			Prefix: *c.Prefix,
+			Prefix: backend.GetStringFromPtr(c.Prefix),
 		})
 	}
 
 	return s3response.ListMultipartUploadsResult{
-		Bucket:             *output.Bucket,
-		KeyMarker:          *output.KeyMarker,
-		UploadIDMarker:     *output.UploadIdMarker,
-		NextKeyMarker:      *output.NextKeyMarker,
-		NextUploadIDMarker: *output.NextUploadIdMarker,
-		Delimiter:          *output.Delimiter,
-		Prefix:             *output.Prefix,
+		Bucket:             backend.GetStringFromPtr(output.Bucket),
+		KeyMarker:          backend.GetStringFromPtr(output.KeyMarker),
+		UploadIDMarker:     backend.GetStringFromPtr(output.UploadIdMarker),
+		NextKeyMarker:      backend.GetStringFromPtr(output.NextKeyMarker),
+		NextUploadIDMarker: backend.GetStringFromPtr(output.NextUploadIdMarker),
+		Delimiter:          backend.GetStringFromPtr(output.Delimiter),
+		Prefix:             backend.GetStringFromPtr(output.Prefix),
 		EncodingType:       string(output.EncodingType),
-		MaxUploads:         int(*output.MaxUploads),
-		IsTruncated:        *output.IsTruncated,
+		MaxUploads:         int(aws.ToInt32(output.MaxUploads)),
+		IsTruncated:        aws.ToBool(output.IsTruncated),
 		Uploads:            uploads,
 		CommonPrefixes:     cps,
 	}, nil
@@ -505,10 +499,10 @@ func (s *S3Proxy) ListParts(ctx context.Context, input *s3.ListPartsInput) (s3re
 	var parts []s3response.Part
 	for _, p := range output.Parts {
 		parts = append(parts, s3response.Part{
-			PartNumber:        int(*p.PartNumber),
-			LastModified:      *p.LastModified,
-			ETag:              *p.ETag,
-			Size:              *p.Size,
+			PartNumber:        int(aws.ToInt32(p.PartNumber)),
+			LastModified:      aws.ToTime(p.LastModified),
+			ETag:              backend.GetStringFromPtr(p.ETag),
+			Size:              aws.ToInt64(p.Size),
 			ChecksumCRC32:     p.ChecksumCRC32,
 			ChecksumCRC32C:    p.ChecksumCRC32C,
 			ChecksumCRC64NVME: p.ChecksumCRC64NVME,
@@ -516,35 +510,33 @@ func (s *S3Proxy) ListParts(ctx context.Context, input *s3.ListPartsInput) (s3re
 			ChecksumSHA256:    p.ChecksumSHA256,
 		})
 	}
-	pnm, err := strconv.Atoi(*output.PartNumberMarker)
-	if err != nil {
-		return s3response.ListPartsResult{},
-			fmt.Errorf("parse part number marker: %w", err)
+	var pnm, npmn int
+	if output.PartNumberMarker != nil {
+		pnm, err = strconv.Atoi(*output.PartNumberMarker)
+		if err != nil {
+			return s3response.ListPartsResult{},
+				fmt.Errorf("parse part number marker: %w", err)
+		}
 	}
-
-	npmn, err := strconv.Atoi(*output.NextPartNumberMarker)
-	if err != nil {
-		return s3response.ListPartsResult{},
-			fmt.Errorf("parse next part number marker: %w", err)
+	if output.NextPartNumberMarker != nil {
+		npmn, err = strconv.Atoi(*output.NextPartNumberMarker)
+		if err != nil {
+			return s3response.ListPartsResult{},
+				fmt.Errorf("parse next part number marker: %w", err)
+		}
 	}
 
 	return s3response.ListPartsResult{
-		Bucket:   *output.Bucket,
-		Key:      *output.Key,
-		UploadID: *output.UploadId,
-		Initiator: s3response.Initiator{
-			ID:          *output.Initiator.ID,
-			DisplayName: *output.Initiator.DisplayName,
-		},
-		Owner: s3response.Owner{
-			ID:          *output.Owner.ID,
-			DisplayName: *output.Owner.DisplayName,
-		},
+		Bucket:               backend.GetStringFromPtr(output.Bucket),
+		Key:                  backend.GetStringFromPtr(output.Key),
+		UploadID:             backend.GetStringFromPtr(output.UploadId),
+		Initiator:            convertInitiator(output.Initiator),
+		Owner:                convertOwner(output.Owner),
 		StorageClass:         output.StorageClass,
 		PartNumberMarker:     pnm,
 		NextPartNumberMarker: npmn,
-		MaxParts:             int(*output.MaxParts),
-		IsTruncated:          *output.IsTruncated,
+		MaxParts:             int(aws.ToInt32(output.MaxParts)),
+		IsTruncated:          aws.ToBool(output.IsTruncated),
 		Parts:                parts,
 		ChecksumAlgorithm:    output.ChecksumAlgorithm,
 		ChecksumType:         output.ChecksumType,
@@ -1616,6 +1608,28 @@ func base64Decode(encoded string) ([]byte, error) {
 		return nil, err
 	}
 	return decoded, nil
+}
+
+// convertOwner and convertInitiator tolerate an absent owner / initiator and
+// absent members of it (S3 no longer answers DisplayName everywhere).
+func convertOwner(o *types.Owner) s3response.Owner {
+	if o == nil {
+		return s3response.Owner{}
+	}
+	return s3response.Owner{
+		ID:          backend.GetStringFromPtr(o.ID),
+		DisplayName: backend.GetStringFromPtr(o.DisplayName),
+	}
+}
+
+func convertInitiator(i *types.Initiator) s3response.Initiator {
+	if i == nil {
+		return s3response.Initiator{}
+	}
+	return s3response.Initiator{
+		ID:          backend.GetStringFromPtr(i.ID),
+		DisplayName: backend.GetStringFromPtr(i.DisplayName),
+	}
 }
 
 func convertObjects(objs []types.Object) []s3response.Object {
